@@ -355,3 +355,57 @@ def run(chk):
     from rules import c17_copylen
     c17_copylen.run(chk, prog)
     c17_copylen.run_addwrap(chk, prog)
+    _cstr_rule(chk, prog)
+
+
+UNBOUNDED_CSTR = ("strchr", "strrchr", "strlen", "strcmp", "strstr", "strcpy", "strcat", "strdup", "strpbrk", "strspn", "strcspn",
+                  "strtok", "atoi", "atof", "strtol", "strtoul", "strtod", "strcasecmp", "index", "rindex")
+CSTR_EXCEPTIONS = {
+    "janet_getcbytes": "this is the function that turns bytes into a C string: it puts a terminator behind the bytes first and uses strlen "
+                       "precisely to detect an embedded NUL (and then raises)",
+}
+
+
+def _cstr_rule(chk, prog):
+    """A JanetByteView (and a buffer's storage) is a pointer plus a length: the bytes may contain NUL and, for a buffer,
+    are not followed by one.  The C string functions that take no length stop at the first NUL and run past the end when
+    there is none, so they must not be applied to such bytes."""
+    rule = "C17-CSTR"
+    chk.rule(rule, "no length-less C string function (strchr, strlen, strcmp ...) is applied to the bytes of a byte view or a buffer")
+    n = 0
+    for fn in prog.all_funcs():
+        calls = fn.calls(*UNBOUNDED_CSTR)
+        if not calls:
+            continue
+
+        def is_raw(y):
+            return y.k == "mem" and ((y.field == "bytes" and y.rec == "JanetByteView") or (y.field == "data" and y.rec == "JanetBuffer"))
+        tainted = set()
+        for x in fn.nodes:
+            tgt = rhs = None
+            if x.k == "vardecl" and x.kids:
+                tgt, rhs = x.name, x.kids[0]
+            elif x.k == "asg" and x.op == "=" and is_ref(x.kids[0]):
+                tgt, rhs = x.kids[0].name, x.kids[1]
+            if tgt and rhs is not None and is_raw(strip_casts(rhs)):
+                tainted.add(tgt)
+        for c in calls:
+            n += 1
+            chk.instance(rule)
+            bad = None
+            for a in c.args:
+                for y in a.walk():
+                    if is_raw(y) or (is_ref(y) and y.name in tainted and "*" in (y.t or "")):
+                        bad = y
+            if bad is None:
+                chk.ok(rule, "%s: %s on a C string" % (fn.name, c.callee))
+            elif fn.name in CSTR_EXCEPTIONS:
+                chk.exception(rule, "%s:%s" % (fn.name, c.callee), CSTR_EXCEPTIONS[fn.name])
+                chk.ok(rule, "%s: %s (exception)" % (fn.name, c.callee))
+            else:
+                chk.analysed(fn)
+                chk.violation(rule, fn.tu.name, fn.name, "%s:%s" % (c.callee, bad.text()[:24].replace(" ", "")), c.loc,
+                              "`%s` applies a length-less C string function to `%s`, bytes that come with an explicit length: a NUL byte in "
+                              "the data ends the scan early (and always `matches` in strchr), and a buffer without terminator is read past "
+                              "its end" % (c.text()[:60], bad.text()[:30]))
+    chk.floor(rule, 30, n)
